@@ -1,7 +1,7 @@
 """C20 -- boot datagrams (rig/machine_control/boot.py::boot_packet).  boot() itself (files,
 clock, socket, struct-file parsing) is decided by bounded/c20_boot.py over a recording socket."""
 from pyvc.spec import contract, lemma
-from pyvc.values import TInt, TSeq, TRec, ListV
+from pyvc.values import TInt, TSeq, TRec, ListV, TBool
 from pyvc.speclib import implies, forall_range, select, seq_len
 
 BYTES = TSeq(TInt(0, 255), "bytes")
@@ -9,17 +9,26 @@ U32 = TInt(0, 2 ** 32 - 1)
 
 
 def _send(E, obj, args, kwargs, st, node):
+    """sock.send(datagram): transmitted and recorded - or, when the ghost input g_refused is set (where a contract declares
+    it), refused by the operating system: OSError, nothing transmitted"""
+    from pyvc.values import NONE, ExcV
+    from pyvc.engine import Raised
     s = st.copy()
     s.trace = ListV(s.trace.items + (("send", args[0]),))
-    from pyvc.values import NONE
-    return [(s, NONE, None)]
+    if "g_refused" not in st.env:
+        return [(s, NONE, None)]
+    import z3
+    return [(s.assume(z3.Not(st.env["g_refused"])), NONE, None), (st.assume(st.env["g_refused"]), Raised(ExcV("OSError")), None)]
 
 
 class _Sock(object):
-    def __init__(self):
+    def __init__(self, refuse=False):
         self.sent = []
+        self.refuse = refuse
 
     def send(self, data):
+        if self.refuse:
+            raise ConnectionRefusedError(111, "Connection refused")
         self.sent.append(("send", bytes(data)))
 
 
@@ -30,16 +39,25 @@ def be32(b, i):
 @contract("rig/machine_control/boot.py::boot_packet")
 class BootPacket:
     properties = ("C20",)
-    params = dict(sock=TRec("OpaqueSock"), cmd=U32, arg1=U32, arg2=U32, arg3=U32, data=BYTES)
+    params = dict(sock=TRec("OpaqueSock"), cmd=U32, arg1=U32, arg2=U32, arg3=U32, data=BYTES, g_refused=TBool())
     externals = {"OpaqueSock.send": _send}
     options = {"var_shapes": {"fdata": BYTES}}
     loop_headers = {0: "while len(data) > 0:"}
+    raises = {"OSError": None}
 
-    def native(cmd, arg1, arg2, arg3, data):
+    def raises_OSError(g_refused, _trace):
+        # a datagram the socket refuses is not passed over in silence: the error reaches the caller, nothing was transmitted
+        return g_refused and len(_trace) == 0
+
+    def native(cmd, arg1, arg2, arg3, data, g_refused):
         from rig.machine_control.boot import boot_packet
-        s = _Sock()
-        boot_packet(s, cmd, arg1, arg2, arg3, data)
-        return {"__native__": True, "result": None, "_trace": s.sent}
+        s = _Sock(refuse=g_refused)
+        try:
+            boot_packet(s, cmd, arg1, arg2, arg3, data)
+            raised = None
+        except OSError:
+            raised = "OSError"
+        return {"__native__": True, "result": None, "raised": raised, "_trace": s.sent}
 
     def requires(cmd, arg1, arg2, arg3, data):
         return seq_len(data) % 4 == 0          # the function's own assert
@@ -57,8 +75,8 @@ class BootPacket:
     def variant_0(data):
         return seq_len(data)
 
-    def ensures_one_datagram(_trace):
-        return len(_trace) == 1 and _trace[0][0] == "send"
+    def ensures_one_datagram(g_refused, _trace):
+        return not g_refused and len(_trace) == 1 and _trace[0][0] == "send"
 
     def ensures_header_is_version_command_and_arguments(cmd, arg1, arg2, arg3, _trace):
         d = _trace[0][1]
